@@ -346,7 +346,8 @@ func specHost(entries []string, host string) bool {
 			}
 			ok := true
 			for i := range pp {
-				if pp[i] != "*" && pp[i] != hp[i] {
+				// "*" stands for exactly one NON-EMPTY label
+				if (pp[i] == "*" && hp[i] == "") || (pp[i] != "*" && pp[i] != hp[i]) {
 					ok = false
 					break
 				}
